@@ -22,6 +22,11 @@ type MtScenario struct {
 	Receivers   []int
 	BadReceiver bool
 	Burns       bool
+	// SecondId: a second token id is minted in the same class (2 units, user 1)
+	SecondId bool
+	// MintOn: chains on which the class and its token(s) are issued natively (default: A only). The MT module derives
+	// class and token ids from per-chain counters, so the natives of different chains carry identical ids.
+	MintOn []string
 }
 
 // Actions enumerates MsgMtTransfer transactions for every user balance.
@@ -112,33 +117,50 @@ func mt3(name string, props map[string]bool, sc MtScenario, names []string) *Pkt
 		for _, n := range names {
 			setRules(w, n, []string{"*,*,*"})
 		}
-		a := w.C(A)
-		u1, u2 := User(a, 1), User(a, 2)
-		if r := w.Tx(a, u1, mttypes.NewMsgIssueDenom("gold", "", u1.Addr.String())); !r.OK() {
-			panic(r.Log)
+		mintOn := sc.MintOn
+		if len(mintOn) == 0 {
+			mintOn = []string{A}
 		}
-		var denom string
-		for d := range mtDenoms(a) {
-			denom = d
-		}
-		// mint: supply-1 to user1 and 1 to user2 of the same MT id
-		if r := w.Tx(a, u1, mttypes.NewMsgMintMT("", denom, sc.Supply-1, "data", u1.Addr.String(), u1.Addr.String())); !r.OK() {
-			panic(r.Log)
-		}
-		var mtid string
-		for k := range MtHoldings(a).Supply {
-			mtid = strings.Split(k, "|")[1]
-		}
-		if r := w.Tx(a, u1, mttypes.NewMsgMintMT(mtid, denom, 1, "", u1.Addr.String(), u2.Addr.String())); !r.OK() {
-			panic(r.Log)
+		for _, cn := range mintOn {
+			a := w.C(cn)
+			u1, u2 := User(a, 1), User(a, 2)
+			if r := w.Tx(a, u1, mttypes.NewMsgIssueDenom("gold", "", u1.Addr.String())); !r.OK() {
+				panic(r.Log)
+			}
+			var denom string
+			for d := range mtDenoms(a) {
+				denom = d
+			}
+			// mint: supply-1 to user1 and 1 to user2 of the same MT id
+			if r := w.Tx(a, u1, mttypes.NewMsgMintMT("", denom, sc.Supply-1, "data", u1.Addr.String(), u1.Addr.String())); !r.OK() {
+				panic(r.Log)
+			}
+			var mtid string
+			for k := range MtHoldings(a).Supply {
+				mtid = strings.Split(k, "|")[1]
+			}
+			if r := w.Tx(a, u1, mttypes.NewMsgMintMT(mtid, denom, 1, "", u1.Addr.String(), u2.Addr.String())); !r.OK() {
+				panic(r.Log)
+			}
+			if sc.SecondId {
+				if r := w.Tx(a, u1, mttypes.NewMsgMintMT("", denom, 2, "second", u1.Addr.String(), u1.Addr.String())); !r.OK() {
+					panic(r.Log)
+				}
+			}
 		}
 	}
 	m.InitGhost = func(w *world.World, g *Ghost) {
-		st := MtHoldings(w.C(A))
-		for ci, sup := range st.Supply {
-			id := "native:" + A + ":" + ci
-			g.Extra[mtNode(A, ci)] = id
-			g.Extra["mtminted|"+id] = fmt.Sprint(sup)
+		mintOn := sc.MintOn
+		if len(mintOn) == 0 {
+			mintOn = []string{A}
+		}
+		for _, cn := range mintOn {
+			st := MtHoldings(w.C(cn))
+			for ci, sup := range st.Supply {
+				id := "native:" + cn + ":" + ci
+				g.Extra[mtNode(cn, ci)] = id
+				g.Extra["mtminted|"+id] = fmt.Sprint(sup)
+			}
 		}
 	}
 	return m
@@ -161,7 +183,11 @@ func modelsC05(tier string) ([]*PktModel, []int) {
 		mt3("mt3-two-hops-error-acks", props, MtScenario{MaxUserTx: 2, Supply: 3, Amounts: []uint64{2, 3}, Receivers: []int{1}, BadReceiver: true}, []string{A, B, C}),
 		mt3("mt3-max-supply", props, MtScenario{MaxUserTx: 3, Supply: max, Amounts: []uint64{1, 1 << 63, max - 1, max}, Receivers: []int{1}}, []string{A, B, C}),
 	}
-	depth := []int{8, 7, 7}
+	// two token ids in one class; and the same class / token ids native to A and to the relay chain B
+	models = append(models,
+		mt3("mt2-two-ids-one-class", props, MtScenario{MaxUserTx: 3, Supply: 2, Amounts: []uint64{1}, Receivers: []int{1}, SecondId: true}, []string{A, B}),
+		mt3("mt3-same-ids-native-on-relay-chain", props, MtScenario{MaxUserTx: 2, Supply: 2, Amounts: []uint64{2}, Receivers: []int{1}, Relays: true, MintOn: []string{A, B}}, []string{A, B, C}))
+	depth := []int{8, 7, 7, 8, 7}
 	if tier == "thorough" {
 		// the quick scenarios explored deeper, then two scenarios with a wider alphabet (second receiver, relay routes,
 		// more amounts) whose branching factor of 20-40 bounds them to a few steps
@@ -169,7 +195,7 @@ func modelsC05(tier string) ([]*PktModel, []int) {
 			mt3("mt3-wide", props, MtScenario{MaxUserTx: 4, Supply: 3, Amounts: []uint64{1, 2, 3, 4}, Receivers: []int{1, 2}, BadReceiver: true, Relays: true}, []string{A, B, C}),
 			mt3("mt3-max-supply-wide", props, MtScenario{MaxUserTx: 4, Supply: max, Amounts: []uint64{1, 2, 1 << 63, max - 1, max}, Receivers: []int{1}, BadReceiver: true}, []string{A, B, C}),
 		)
-		depth = []int{12, 10, 12, 4, 4}
+		depth = []int{12, 10, 12, 10, 9, 4, 4}
 	}
 	return models, depth
 }
